@@ -1,15 +1,20 @@
 """C19 -- statistics and burn-in/thinning are exact functions of the stored chain.
 Correspondence: cuqi.samples.Samples / JointSamples vs Model/C19_Stats.v (EXACT on integer arrays,
 statistics to 1e-9 against the model's exact rationals)."""
-import copy, itertools
+import copy, itertools, math, json
 from fractions import Fraction
 import numpy as np
 from common import *
 
-IMPORTS = "From CV Require Import Base.Cmp Model.C19_Stats.\nFrom Coq Require Import QArith String. Open Scope string_scope."
+IMPORTS = "From CV Require Import Base.Cmp Model.C19_Stats Model.C19_History.\nFrom Coq Require Import QArith String. Open Scope string_scope."
 RULE = ("integer sample arrays (1-3 function axes, Ns<=9 quick/<=13 thorough), every (Nb,Nt) incl. Nb>=Ns, Nt=0, Nt>Ns; "
         "chained burnthin; JointSamples; per-coordinate mean/var/median/std/CI at 9 credibility levels; funvals statistics via a "
-        "mapped geometry; arviz dictionaries. distinct = distinct (array, operation, arguments); trivial = Ns==1 statistics and "
+        "mapped geometry; arviz dictionaries; HISTORIES: sequences of 10-16 operations (every statistic, compute_ci/ci_width, arviz/ESS/R-hat "
+        "hand-over, funvals/vector/parameters, burnthin, JointSamples.burnthin, plot_*/diagnostics) on a set of live objects that share "
+        "storage (constructor keeps the caller's array, burnthin children are views), arrays of distinct values in random order, "
+        "C/F/strided/reversed/sample-axis-first layouts, int64/float64; after EVERY operation the stored array and flags of EVERY live "
+        "object are compared with the model's state and bit-for-bit with their bytes at creation, repeated operations must repeat "
+        "their first result. distinct = distinct (array, operation, arguments); trivial = Ns==1 statistics and "
         "(Nb,Nt)=(0,1) burnthin")
 
 
@@ -64,6 +69,595 @@ def mk_geom(cuqi, kind, dim):
     if kind == "discrete":
         return cuqi.geometry.Discrete(dim)
     raise ValueError(kind)
+
+
+# =====================================================================================================
+# HISTORIES: operation sequences on a set of live objects that share storage
+# =====================================================================================================
+HGEOMS = ["default", "cont1d", "named", "mapped1d", "image2d", "mapped2d"]
+LAYOUTS = ["C", "F", "strided", "rev", "samplefirst"]
+STAT_OPS = ["mean", "median", "variance", "std"]
+QUIET = ["plot_mean", "plot_median", "plot_variance", "plot_std", "plot_ci_width", "plot_ci", "plot", "plot_chain",
+         "hist_chain", "diagnostics"]
+H_PERCENTS = [95, 50, 90, 99, 80, 0, 100, 12.5, 37]
+MAX_LIVE = 7
+RHAT_SIG = "Samples.compute_rhat|geometry-eq:lazily-cached-attribute"
+
+
+def build_array(vals, dtype, layout):
+    """The array handed to Samples(...) in the requested memory layout, plus the array that owns its memory."""
+    a = np.array(vals, dtype=dtype)
+    if layout == "C":
+        arr = np.ascontiguousarray(a)
+    elif layout == "F":
+        arr = np.asfortranarray(a)
+    elif layout == "strided":                       # every second element of a larger buffer
+        big = np.full(a.shape[:-1] + (2 * a.shape[-1] + 1,), 777, dtype=dtype)
+        big[..., 1::2] = a
+        arr = big[..., 1::2]
+    elif layout == "rev":                           # negative stride along the sample axis
+        big = np.ascontiguousarray(a[..., ::-1])
+        arr = big[..., ::-1]
+    elif layout == "samplefirst":                   # sample axis is the slowest one in memory
+        big = np.ascontiguousarray(np.moveaxis(a, -1, 0))
+        arr = np.moveaxis(big, 0, -1)
+    else:
+        raise ValueError(layout)
+    assert np.array_equal(arr, a)
+    owner = arr
+    while isinstance(owner.base, np.ndarray):
+        owner = owner.base
+    return arr, owner
+
+
+def h_geometry(cuqi, m):
+    """(geometry object or None, variable names) of a history"""
+    kind, dim = m["geom"], m["dim"]
+    a, b = m["a"], m["b"]
+    fmap = lambda x, a=a, b=b: a * x + b
+    imap = lambda f, a=a, b=b: a * (f - b)
+    if kind == "default":
+        G = None
+    elif kind == "cont1d":
+        G = cuqi.geometry.Continuous1D(dim)
+    elif kind == "named":
+        G = cuqi.geometry.Discrete(list(m["names"]))
+    elif kind == "mapped1d":
+        G = cuqi.geometry.MappedGeometry(cuqi.geometry.Continuous1D(dim), map=fmap, imap=imap)
+    elif kind == "image2d":
+        G = cuqi.geometry.Image2D(tuple(m["im_shape"]))
+    elif kind == "mapped2d":
+        G = cuqi.geometry.MappedGeometry(cuqi.geometry.Image2D(tuple(m["im_shape"])), map=fmap, imap=imap)
+    else:
+        raise ValueError(kind)
+    return G
+
+
+def h_names(m):
+    if m["geom"] == "named":
+        return list(m["names"])
+    return ["v%d" % k for k in range(m["dim"])] if m["dim"] != 1 else ["v"]
+
+
+# ---- pure-Python statement of what every operation means (the oracle; also drives the generator) ------------
+def sim_value(m, op, objs):
+    """objs: list of {"chain": [[int]], "par": bool, "vec": bool}.  Returns (kind, payload, created objects)."""
+    name = op[0]
+    a, b = m["a"], m["b"]
+    fun2d = m["geom"] in ("image2d", "mapped2d")
+    names = h_names(m)
+    x = objs[op[1]] if name != "joint" else None
+    col = lambda o, k: [s[k] for s in o["chain"]]
+    dim = lambda o: len(o["chain"][0])
+    if name in ("mean", "variance", "median", "std"):
+        st = o_stats(x["chain"], dim(x))
+        return ("stat", st[{"mean": "mean", "variance": "var", "median": "median", "std": "var"}[name]], [])
+    if name in ("ci", "ci_width"):
+        pf = Fraction(op[2])
+        lo = [o_percentile(col(x, k), (100 - pf) / 2) for k in range(dim(x))]
+        hi = [o_percentile(col(x, k), 100 - (100 - pf) / 2) for k in range(dim(x))]
+        return ("ci", (lo, hi), []) if name == "ci" else ("stat", [h - l for h, l in zip(hi, lo)], [])
+    if name in ("arviz", "ess"):
+        if not x["vec"]:
+            return ("refused", None, [])
+        return ("dict", list(zip(names, [col(x, k) for k in range(dim(x))])), [])
+    if name == "rhat":
+        y = objs[op[2]]
+        if not (x["vec"] and y["vec"] and len(x["chain"]) == len(y["chain"])):
+            return ("refused", None, [])
+        return ("dict2", list(zip(names, [[col(x, k), col(y, k)] for k in range(dim(x))])), [])
+    if name == "funvals":
+        if not x["par"] and not x["vec"]:
+            return ("self", None, [])
+        ch = [[a * v + b for v in s] for s in x["chain"]] if x["par"] else [list(s) for s in x["chain"]]
+        n = {"chain": ch, "par": False, "vec": not fun2d}
+        return ("obj", n, [n])
+    if name == "vector":
+        if x["vec"] or x["par"]:
+            return ("self", None, [])
+        n = {"chain": [list(s) for s in x["chain"]], "par": x["par"], "vec": True}
+        return ("obj", n, [n])
+    if name == "parameters":
+        if x["par"]:
+            return ("self", None, [])
+        n = {"chain": [[a * (v - b) for v in s] for s in x["chain"]], "par": True, "vec": True}
+        return ("obj", n, [n])
+    if name == "burnthin":
+        ch = o_burnthin(x["chain"], op[2], op[3])
+        if ch is None:
+            return ("refused", None, [])
+        n = {"chain": [list(s) for s in ch], "par": x["par"], "vec": x["vec"]}
+        return ("obj", n, [n])
+    if name == "joint":
+        out = []
+        for i in op[1]:
+            ch = o_burnthin(objs[i]["chain"], op[2], op[3])
+            if ch is None:
+                return ("refused", None, [])
+            out.append({"chain": [list(s) for s in ch], "par": objs[i]["par"], "vec": objs[i]["vec"]})
+        return ("objs", out, out)
+    if name == "quiet":
+        return ("none", None, [])
+    raise ValueError(name)
+
+
+def gen_history(rng, h, n_ops, long_chain=False, plots=False):
+    """meta of one history; the cell (geometry kind x layout x dtype x root kind) depends on h only"""
+    kind = HGEOMS[h % len(HGEOMS)]
+    layout = LAYOUTS[(h // len(HGEOMS)) % len(LAYOUTS)]
+    dtype = ["int64", "float64"][(h // (len(HGEOMS) * len(LAYOUTS))) % 2]
+    two_d = kind in ("image2d", "mapped2d")
+    if long_chain:
+        kind = ["default", "cont1d"][h % 2]
+        two_d = False
+        layout = LAYOUTS[h % len(LAYOUTS)]
+        dtype = ["float64", "int64"][(h // 2) % 2]
+    rootkind = ["par", "fun", "vec"][(h // 2) % 3] if two_d else ["par", "par", "vec"][(h // 7) % 3]
+    if two_d:
+        im_shape = rng.choice([(2, 2), (1, 3), (3, 1), (2, 1)])
+        dim = im_shape[0] * im_shape[1]
+    else:
+        im_shape, dim = None, rng.randint(1, 3)
+    Ns = rng.randint(40, 44) if long_chain else rng.randint(4, 8)
+    m = {"op": "history", "geom": kind, "dim": dim, "im_shape": list(im_shape) if im_shape else None,
+         "a": rng.choice([1, -1]) if kind.startswith("mapped") else 1, "b": rng.randint(-3, 3) if kind.startswith("mapped") else 0,
+         "names": rng.sample(["a", "b", "cc", "x1", "x10", "x2", "zeta", "k", "w"], dim) if kind == "named" else None,
+         "layout": layout, "dtype": dtype, "rootkind": rootkind, "plots": plots, "long": long_chain}
+    nroots = 2 if rng.random() < 0.6 else 1
+    roots, objs = [], []
+    for r in range(nroots):
+        # distinct values in random order: any in-place sort / partition / shift is visible
+        vals = rng.sample(range(-60, 200) if long_chain else range(-40, 60), dim * Ns)
+        rows = [vals[k * Ns:(k + 1) * Ns] for k in range(dim)]                       # rows[k] = chain of coordinate k
+        if rootkind == "fun":
+            arrvals = np.array(rows).reshape(tuple(im_shape) + (Ns,)).tolist()
+        else:
+            arrvals = rows
+        roots.append({"vals": arrvals})
+        objs.append({"chain": [[rows[k][j] for k in range(dim)] for j in range(Ns)],
+                     "par": rootkind == "par", "vec": rootkind != "fun"})
+    m["roots"] = roots
+    m["joint"] = nroots == 2
+    ops = []
+    def pick():
+        return rng.randrange(len(objs))
+    while len(ops) < n_ops:
+        if plots and rng.random() < (0.3 if long_chain else 0.2):
+            sub = ["diagnostics", "plot_median"][len(ops) % 2] if long_chain else QUIET[(h // 4 + len(ops)) % (len(QUIET) - 1)]
+            op = ["quiet", pick(), sub]
+        elif ops and rng.random() < 0.25:
+            op = list(rng.choice(ops))                                                # repeat an earlier operation
+        else:
+            u = rng.random()
+            if u < 0.40:
+                nm = rng.choice(STAT_OPS + ["median", "median"])
+                op = [nm, pick()]
+            elif u < 0.52:
+                op = [rng.choice(["ci", "ci_width"]), pick(), rng.choice(H_PERCENTS)]
+            elif u < 0.62:
+                nm = rng.choice(["arviz", "ess", "rhat"])
+                i = pick()
+                if nm == "rhat":
+                    same = [j for j in range(len(objs)) if len(objs[j]["chain"]) == len(objs[i]["chain"])
+                            and (objs[j]["vec"] and objs[i]["vec"])]
+                    nonvec = [j for j in range(len(objs)) if not objs[j]["vec"]]
+                    if same and (not nonvec or rng.random() < 0.8):
+                        op = ["rhat", i, rng.choice(same)]
+                    elif nonvec and not objs[i]["vec"]:
+                        op = ["rhat", i, rng.choice(nonvec)]
+                    else:
+                        op = ["ess", i]
+                else:
+                    op = [nm, i]
+            elif u < 0.74:
+                op = [rng.choice(["funvals", "vector", "parameters"]), pick()]
+            elif u < 0.92:
+                i = pick()
+                n = len(objs[i]["chain"])
+                nb = rng.randint(0, max(0, n - 2)) if rng.random() < 0.9 else rng.randint(n - 1, n + 1)
+                nt = rng.randint(1, 3) if rng.random() < 0.93 else 0
+                op = ["burnthin", i, nb, nt]
+            elif m["joint"] and u < 0.96:
+                members = [0, 1] if rng.random() < 0.7 else rng.sample(range(len(objs)), 2)
+                n = min(len(objs[i]["chain"]) for i in members)
+                op = ["joint", members, rng.randint(0, n), rng.randint(1, 2)]
+            else:
+                continue
+        created = sim_value(m, op, objs)[2]
+        if len(objs) + len(created) > MAX_LIVE:
+            continue
+        objs += created
+        ops.append(op)
+    m["ops"] = ops
+    return m
+
+
+def flat_obs(arr):
+    """(list of samples as int lists, all values integral?)"""
+    arr = np.asarray(arr)
+    ok = True
+    out = []
+    for k in range(arr.shape[-1]):
+        row = []
+        for v in np.asarray(arr[..., k]).ravel():
+            fv = float(v)
+            if not math.isfinite(fv):
+                ok = False
+                row.append(0)
+            else:
+                if fv != math.floor(fv):
+                    ok = False
+                row.append(int(math.floor(fv)))
+        out.append(row)
+    return out, ok
+
+
+def int_row(v):
+    return [int(math.floor(float(t))) if math.isfinite(float(t)) else 0 for t in np.asarray(v).ravel()]
+
+
+def run_history(cuqi, m):
+    """Execute one history on the implementation.  Returns a dict with the observed trace, the oracle's verdict
+    (fail: None or text; fail_op: name of the operation after which the first discrepancy was seen)."""
+    import arviz, io, contextlib, warnings, logging
+    logging.disable(logging.WARNING)          # arviz logs a warning for chains shorter than 4 draws
+    try:
+        return _run_history(cuqi, m)
+    finally:
+        logging.disable(logging.NOTSET)
+
+
+def _run_history(cuqi, m):
+    import arviz, io, contextlib, warnings
+    import matplotlib.pyplot as plt
+    from cuqi.samples import Samples, JointSamples
+    from cuqi.geometry import _DefaultGeometry1D
+    G = h_geometry(cuqi, m)
+    names = h_names(m)
+    live = []          # implementation side
+    objs = []          # oracle side (pure Python)
+    owners = []        # (array, bytes at creation, description)
+    problems = []      # (step, op name, text)
+    reported = set()
+    intact = True
+
+    def gid(S):
+        g = S._geometry
+        if G is None:
+            return 0 if (g is None or isinstance(g, _DefaultGeometry1D)) else 1
+        return 0 if g is G else 1
+
+    def register(S, o, desc):
+        arr = S.samples
+        live.append({"obj": S, "bytes": np.asarray(arr).tobytes(), "shape": np.shape(arr), "dtype": str(np.asarray(arr).dtype),
+                     "copy": np.array(arr, copy=True), "desc": desc})
+        objs.append(o)
+
+    def observe(step, opname):
+        nonlocal intact
+        state = []
+        for j, L in enumerate(live):
+            S = L["obj"]
+            try:
+                arr = np.asarray(S.samples)
+                same = (arr.shape == L["shape"] and str(arr.dtype) == L["dtype"] and arr.tobytes() == L["bytes"])
+                ch, integral = flat_obs(arr)
+                par, vec = bool(S.is_par), bool(S.is_vec)
+            except Exception as e:
+                same, ch, integral, par, vec = False, [], False, False, False
+            if not same or not integral:
+                intact = False
+            exp = objs[j]
+            if (not same or ch != exp["chain"]) and ("c", j) not in reported:
+                reported.add(("c", j))
+                try:
+                    now = np.asarray(S.samples).tolist()
+                except Exception:
+                    now = "?"
+                problems.append((step, opname, "stored chain of live object %d (%s) changed: at creation %s, now %s"
+                                 % (j, L["desc"], np.array(L["copy"]).tolist(), now)))
+            if (par != exp["par"] or vec != exp["vec"] or gid(S) != 0) and ("f", j) not in reported:
+                reported.add(("f", j))
+                problems.append((step, opname, "flags/geometry of live object %d (%s) changed: is_par=%s is_vec=%s geometry kept=%s"
+                                 % (j, L["desc"], par, vec, gid(S) == 0)))
+            state.append({"chain": ch, "par": par, "vec": vec, "gid": gid(S)})
+        for (arr, b, desc) in owners:
+            if arr.tobytes() != b:
+                intact = False
+                if ("o", desc) not in reported:
+                    reported.add(("o", desc))
+                    problems.append((step, opname, "%s was modified" % desc))
+        return state
+
+    # ---- roots ----
+    for r, root in enumerate(m["roots"]):
+        arr, owner = build_array(root["vals"], m["dtype"], m["layout"])
+        S = Samples(arr, geometry=G, is_par=(m["rootkind"] == "par"), is_vec=(m["rootkind"] != "fun"))
+        owners.append((owner, owner.tobytes(), "the buffer behind the array handed to the constructor of root %d" % r))
+        dim, Ns = m["dim"], np.shape(arr)[-1]
+        rows = np.array(root["vals"]).reshape(dim, Ns)
+        register(S, {"chain": [[int(rows[k][j]) for k in range(dim)] for j in range(Ns)],
+                     "par": m["rootkind"] == "par", "vec": m["rootkind"] != "fun"}, "root %d" % r)
+    J = JointSamples({"x": live[0]["obj"], "y": live[1]["obj"]}) if m["joint"] else None
+    init = observe(-1, "construction")
+    first = {}
+    trace = []
+    fl = lambda x: [frac(v) for v in np.asarray(x, dtype=float).ravel()]
+    ess_ref = {}
+    aliasing = {"burnthin_child_shares_memory": 0, "burnthin_children": 0, "stat_result_shares_memory": 0,
+                "conversions": 0, "conversion_shares_memory": 0}
+
+    for step, op in enumerate(m["ops"]):
+        name = op[0]
+        key = json.dumps(op)
+        label = op[2] if name == "quiet" else name            # call site named in messages / signatures
+        exp_kind, exp_val, exp_created = sim_value(m, op, objs)
+        geq, geq_exc = True, None
+        obs = None          # (kind, payload) as observed
+        raw = None          # for repeat comparison
+        new_objs = []       # new implementation objects
+        try:
+            if name == "joint":
+                mem = op[1]
+                JJ = J if mem == [0, 1] and J is not None else JointSamples({"m%d" % k: live[i]["obj"] for k, i in enumerate(mem)})
+                try:
+                    R = JJ.burnthin(op[2], op[3])
+                    ok = isinstance(R, JointSamples) and list(R.keys()) == list(JJ.keys())
+                    new_objs = list(R.values())
+                    obs = ("objs", None) if ok else ("refused", None)
+                except (ValueError, ZeroDivisionError):
+                    obs = ("refused", None)
+            else:
+                S = live[op[1]]["obj"]
+                if name in STAT_OPS:
+                    r = getattr(S, name)()
+                    raw = np.array(r)
+                    if isinstance(r, np.ndarray) and np.shares_memory(r, np.asarray(S.samples)):
+                        aliasing["stat_result_shares_memory"] += 1
+                    v = fl(r)
+                    if name == "std":
+                        v = [t * t for t in v]
+                    obs = ("stat", v) if np.shape(r) == np.shape(S.samples)[:-1] else ("refused", None)
+                elif name == "ci":
+                    lo, hi = S.compute_ci(op[2])
+                    raw = np.array([lo, hi])
+                    obs = ("ci", (fl(lo), fl(hi)))
+                elif name == "ci_width":
+                    r = S.ci_width(op[2])
+                    raw = np.array(r)
+                    obs = ("stat", fl(r))
+                elif name == "arviz":
+                    try:
+                        d = S.to_arviz_inferencedata()
+                        obs = ("dict", [(str(k), int_row(v)) for k, v in d.items()])
+                    except ValueError:
+                        obs = ("refused", None)
+                elif name == "ess":
+                    seen = {}
+                    real = arviz.ess
+                    def fake(dd, **kw):
+                        seen["d"] = [(str(k), int_row(v)) for k, v in dd.items()]
+                        return real(dd, **kw)
+                    arviz.ess = fake
+                    try:
+                        with warnings.catch_warnings():
+                            warnings.simplefilter("ignore")
+                            raw = np.array(S.compute_ess())
+                    except Exception:
+                        raw = None
+                    finally:
+                        arviz.ess = real
+                    obs = ("dict", seen["d"]) if "d" in seen else ("refused", None)
+                    if raw is not None and exp_kind == "dict":
+                        # the numbers: ESS of every pristine chain, computed on a fresh array
+                        if op[1] not in ess_ref:
+                            ess_ref[op[1]] = [float(real({"v": np.array(c, dtype=float)})["v"].values) for _, c in exp_val]
+                        ref = ess_ref[op[1]]
+                        for k in range(len(ref)):
+                            if not ((np.isnan(ref[k]) and np.isnan(raw[k])) or abs(raw[k] - ref[k]) <= 1e-9 * (1 + abs(ref[k]))):
+                                problems.append((step, name, "compute_ess()[%d]=%r of live object %d is not the ESS %r of its chain as stored at creation" % (k, raw[k], op[1], ref[k])))
+                                break
+                elif name == "rhat":
+                    seen = {}
+                    O = live[op[2]]["obj"]
+                    try:                      # the answer of cuqi.geometry's comparison: an input of the model (see ORhat)
+                        geq = not (S.geometry != O.geometry)
+                    except Exception as e:
+                        geq = False
+                        geq_exc = repr(e)
+                    real = arviz.rhat
+                    def fake(dd, **kw):
+                        seen["d"] = [(str(k), [int_row(c) for c in np.asarray(v)]) for k, v in dd.items()]   # [chain of self, chain of other]
+                        return real(dd, **kw)
+                    arviz.rhat = fake
+                    try:
+                        with warnings.catch_warnings():
+                            warnings.simplefilter("ignore")
+                            raw = np.array(S.compute_rhat(live[op[2]]["obj"]))
+                    except Exception:
+                        raw = None
+                    finally:
+                        arviz.rhat = real
+                    obs = ("dict2", seen["d"]) if "d" in seen else ("refused", None)
+                elif name in ("funvals", "vector", "parameters"):
+                    R = getattr(S, name)
+                    if R is S:
+                        obs = ("self", None)
+                    else:
+                        new_objs = [R]
+                        obs = ("obj", None)
+                        aliasing["conversions"] += 1
+                        aliasing["conversion_shares_memory"] += int(np.shares_memory(np.asarray(R.samples), np.asarray(S.samples)))
+                elif name == "burnthin":
+                    try:
+                        R = S.burnthin(op[2], op[3])
+                        new_objs = [R]
+                        obs = ("obj", None)
+                        aliasing["burnthin_children"] += 1
+                        aliasing["burnthin_child_shares_memory"] += int(np.shares_memory(np.asarray(R.samples), np.asarray(S.samples)))
+                    except (ValueError, ZeroDivisionError):
+                        obs = ("refused", None)
+                elif name == "quiet":
+                    sub = op[2]
+                    with contextlib.redirect_stdout(io.StringIO()), warnings.catch_warnings():
+                        warnings.simplefilter("ignore")
+                        try:
+                            if sub == "plot":
+                                S.plot(sample_indices=[0, S.Ns - 1])
+                            elif sub in ("plot_chain", "hist_chain"):
+                                getattr(S, sub)([0])
+                            else:
+                                getattr(S, sub)()
+                        except Exception:
+                            pass            # plotting / Geweke errors are not this property's business; the state is
+                        finally:
+                            plt.close("all")
+                    obs = ("none", None)
+        except Exception as e:
+            obs = ("refused", None)
+            problems.append((step, label, "operation raised %r" % (e,)))
+        # ---- new objects: describe, register (the oracle registers what it expects; lengths may differ on failure) ----
+        new_desc = []
+        for R in new_objs:
+            try:
+                ch, integral = flat_obs(R.samples)
+                new_desc.append({"chain": ch, "par": bool(R.is_par), "vec": bool(R.is_vec), "gid": gid(R)})
+            except Exception:
+                new_desc.append({"chain": [], "par": False, "vec": False, "gid": 1})
+        if obs[0] == "obj":
+            obs = ("obj", new_desc[0])
+        elif obs[0] == "objs":
+            obs = ("objs", new_desc)
+        # ---- the oracle's verdict on the value ----
+        def same_obj(d, e):
+            return d["chain"] == e["chain"] and d["par"] == e["par"] and d["vec"] == e["vec"] and d["gid"] == 0
+        okv = obs[0] == exp_kind
+        if okv:
+            if exp_kind == "stat":
+                okv = len(obs[1]) == len(exp_val) and all(close(g_, e) for g_, e in zip(obs[1], exp_val))
+            elif exp_kind == "ci":
+                okv = all(len(o_) == len(e_) and all(close(g_, e) for g_, e in zip(o_, e_)) for o_, e_ in zip(obs[1], exp_val))
+            elif exp_kind in ("dict", "dict2"):
+                okv = [(k, v) for k, v in obs[1]] == [(k, v) for k, v in exp_val]
+            elif exp_kind == "obj":
+                okv = same_obj(obs[1], exp_val)
+            elif exp_kind == "objs":
+                okv = len(obs[1]) == len(exp_val) and all(same_obj(d, e) for d, e in zip(obs[1], exp_val))
+        if not okv and name == "rhat" and exp_kind == "dict2" and obs[0] == "refused" and not geq:
+            # all objects of a history have the same geometry (one object, or default geometries of one size): R-hat must be
+            # computed; the geometry comparison said otherwise (known class: lazily cached attributes, see known_findings.tsv)
+            problems.append((step, RHAT_SIG, "%s: compute_rhat of live object %d with live object %d is refused because the comparison "
+                             "of their (equal) geometries %s, depending on which of to_arviz_inferencedata / compute_ess / compute_rhat "
+                             "ran before (they cache _funvec_shape on one geometry object)"
+                             % (op, op[1], op[2], ("raised " + geq_exc) if geq_exc else "answered 'different'")))
+        elif not okv:
+            show = lambda kv: (kv[0], [float(t) for t in kv[1]] if kv[0] == "stat" else kv[1])
+            problems.append((step, name, "%s on live object %s returned %s; from the chain as stored at creation: %s"
+                             % (op, op[1], show(obs), show((exp_kind, exp_val)))))
+        # ---- repeated operation repeats its first result bit for bit ----
+        if raw is not None:
+            if key in first:
+                if not np.array_equal(first[key][1], raw, equal_nan=True):
+                    problems.append((step, name, "%s repeated at step %d returned %s, at step %d it returned %s"
+                                     % (op, step, raw.tolist(), first[key][0], first[key][1].tolist())))
+            else:
+                first[key] = (step, raw)
+        elif obs[0] in ("obj", "objs"):
+            if key in first:
+                if first[key][1] != obs[1]:
+                    problems.append((step, name, "%s repeated at step %d built a different object than at step %d" % (op, step, first[key][0])))
+            else:
+                first[key] = (step, obs[1])
+        # register new objects on both sides (if the numbers differ the history cannot continue meaningfully)
+        stop = len(new_objs) != len(exp_created)
+        if not stop:
+            for R, e in zip(new_objs, exp_created):
+                register(R, e, "%s of live object %s at step %d" % (name, op[1], step))
+        if J is not None and not (list(J.keys()) == ["x", "y"] and J["x"] is live[0]["obj"] and J["y"] is live[1]["obj"]):
+            problems.append((step, name, "the JointSamples dictionary no longer holds its members"))
+        state = observe(step, label)
+        trace.append({"op": op, "value": obs, "state": state, "geq": geq})
+        if stop:
+            problems.append((step, name, "number of objects built differs from the expectation; history stopped"))
+            break
+    fail, fail_op = None, None
+    if problems:
+        problems.sort(key=lambda p: (p[1] == RHAT_SIG, p[0]))         # anything else first: a known class never hides another failure
+        fail_op = problems[0][1]
+        fail = "history (%s, %s, %s, roots=%s): " % (m["geom"], m["layout"], m["dtype"], m["rootkind"]) + \
+               " || ".join("after step %d (%s): %s" % p for p in problems[:4])
+    return {"init": init, "trace": trace, "fail": fail, "fail_op": fail_op, "intact": intact, "names": names,
+            "complete": len(trace) == len(m["ops"]), "aliasing": aliasing}
+
+
+# ---- Coq encoders ------------------------------------------------------------------------------------------
+def c_hobj(d):
+    return "(mkS %s %s %s %s)" % (cchain(d["chain"]), cbool(d["par"]), cbool(d["vec"]), cnat(d["gid"]))
+
+
+def c_op(op, geq=True):
+    nm = op[0]
+    if nm == "joint":
+        return "(OJoint %s %s %s)" % (clist([cnat(i) for i in op[1]]), cnat(op[2]), cnat(op[3]))
+    i = cnat(op[1])
+    if nm in ("ci", "ci_width"):
+        pf = Fraction(op[2])
+        return "(%s %s %s %d%%positive)" % ("OCi" if nm == "ci" else "OCiWidth", i, cz(pf.numerator), pf.denominator)
+    if nm == "rhat":
+        return "(ORhat %s %s %s)" % (i, cnat(op[2]), cbool(geq))
+    if nm == "burnthin":
+        return "(OBurnthin %s %s %s)" % (i, cnat(op[2]), cnat(op[3]))
+    return "(%s %s)" % ({"mean": "OMean", "median": "OMedian", "variance": "OVar", "std": "OStd", "arviz": "OArviz", "ess": "OEss",
+                         "funvals": "OFunvals", "vector": "OVector", "parameters": "OParameters", "quiet": "OQuiet"}[nm], i)
+
+
+def c_oval(v):
+    k, p = v
+    if k == "stat":
+        return "(VStat %s)" % cqvec(p)
+    if k == "ci":
+        return "(VCi %s %s)" % (cqvec(p[0]), cqvec(p[1]))
+    if k == "dict":
+        return "(VDict %s)" % clist(["(%s, %s)" % (cstr(a), czvec(c)) for a, c in p])
+    if k == "dict2":
+        return "(VDict2 %s)" % clist(["(%s, %s)" % (cstr(a), cchain(c)) for a, c in p])
+    if k == "obj":
+        return "(VObj %s)" % c_hobj(p)
+    if k == "objs":
+        return "(VObjs %s)" % clist([c_hobj(d) for d in p])
+    return {"self": "VSelf", "none": "VNone", "refused": "VRefused"}[k]
+
+
+def history_case(cuqi, m):
+    res = run_history(cuqi, m)
+    g = "(mkG %s %s %s %s)" % (clist([cstr(n) for n in res["names"]]), cz(m["a"]), cz(m["b"]), cbool(m["geom"] in ("image2d", "mapped2d")))
+    expr = "check_history %s %s %s %s %s" % (
+        g, clist([c_hobj(d) for d in res["init"]]), clist([c_op(t["op"], t["geq"]) for t in res["trace"]]),
+        clist(["(%s, %s)" % (c_oval(t["value"]), clist([c_hobj(d) for d in t["state"]])) for t in res["trace"]]),
+        cbool(res["intact"] and res["complete"]))
+    cell = "history/%s/%s/%s/%s%s" % (m["geom"], m["layout"], m["dtype"], m["rootkind"], "/long" if m.get("long") else "")
+    return Case(expr=expr, meta=m, cell=cell, impl_fail=res["fail"],
+                signature=(res["fail_op"] if res["fail_op"] == RHAT_SIG else "Samples.history/" + str(res["fail_op"])) if res["fail"] else ""), res
 
 
 def run(ctx):
@@ -279,12 +873,67 @@ def run(ctx):
         cases.append(Case(expr=expr, meta={"op": "arviz", "dim": dim, "geom": kind, "indices": sel if vi is not None else None,
                                           "array": arr.tolist()}, cell="arviz/" + kind, impl_fail=fail,
                           signature="Samples.arviz" if fail else ""))
-    return Result(cases=cases, rule=RULE,
+    # ---- 7. histories: operation sequences on live objects that share storage ---------------------------------
+    alias = {}
+    nh = ctx.n(300, 1500)
+    for h in range(nh):
+        m = gen_history(rng, h, ctx.n(10, 16), plots=(h % 4 == 3))
+        c, res = history_case(cuqi, m)
+        cases.append(c)
+        for k, v in res["aliasing"].items():
+            alias[k] = alias.get(k, 0) + v
+    # ---- 8. long chains (diagnostics() needs >= 40 draws), few operations -----------------------------------------
+    for h in range(ctx.n(16, 80)):
+        m = gen_history(rng, h, ctx.n(6, 8), long_chain=True, plots=True)
+        c, res = history_case(cuqi, m)
+        cases.append(c)
+    ctx.note("histories: %d; burnthin children sharing memory with their source: %d of %d (views: nothing in the API writes through "
+             "them -- that is what the history check establishes); funvals/vector/parameters results sharing memory with their source: "
+             "%d of %d; statistic results sharing memory with the stored array: %d"
+             % (nh, alias.get("burnthin_child_shares_memory", 0), alias.get("burnthin_children", 0),
+                alias.get("conversion_shares_memory", 0), alias.get("conversions", 0), alias.get("stat_result_shares_memory", 0)))
+    return Result(cases=cases, rule=RULE, extra={"history_aliasing": alias},
                   assumptions=["numpy's mean/var/median/percentile are the oracles being compared against the model's exact rationals (tolerance 1e-9 relative)",
-                               "arviz.ess is called for real; only its argument is recorded"])
+                               "arviz.ess / arviz.rhat are called for real; their argument is recorded and compared, the returned ESS is compared with arviz.ess on a fresh copy of each chain",
+                               "histories: one geometry object per history; plot_* and diagnostics() are executed for their effect on the stored arrays only (their own errors are ignored)"])
+
+
+def known_witnesses(ctx):
+    """fixed witness per known signature"""
+    import logging, warnings
+    from cuqi.samples import Samples
+    out = {}
+    a = Samples(np.array([[40., -39, 19, 30, 3, 7]]), is_par=False, is_vec=True)
+    b = Samples(np.array([[-40., 18, 29, -24, 3, 5]]), is_par=False, is_vec=True)
+    logging.disable(logging.WARNING)
+    try:
+        with warnings.catch_warnings():
+            warnings.simplefilter("ignore")
+            r1 = a.compute_rhat(b)
+            try:
+                r2 = a.compute_rhat(b)
+                fails = not np.array_equal(r1, r2)
+                detail = "second call returned %r, first %r" % (r2, r1)
+            except Exception as e:
+                fails, detail = True, "Samples([[40,-39,19,30,3,7]], is_par=False).compute_rhat(Samples([[-40,18,29,-24,3,5]], is_par=False)) " \
+                                      "returns %r the first time and raises %r the second time" % (r1, e)
+    finally:
+        logging.disable(logging.NOTSET)
+    out[RHAT_SIG] = (fails, detail)
+    return out
+
+
+def oracle(ctx, meta):
+    m = meta.get("meta", meta)
+    if m.get("op") == "history":
+        import cuqi
+        return run_history(cuqi, m)["fail"]
+    return None
 
 
 def classify(meta, detail):
+    if meta.get("op") == "history":
+        return "Samples.history"
     return {"burnthin": "Samples.burnthin", "burnthin_seq": "Samples.burnthin", "joint_burnthin": "JointSamples.burnthin",
             "stats": "Samples.stats", "ci": "Samples.compute_ci", "funvals_stats": "Samples.funvals.stats", "arviz": "Samples.arviz"}.get(meta.get("op"), "C19")
 
@@ -294,6 +943,20 @@ def replay(ctx, meta):
     m = meta.get("meta", meta)
     import cuqi
     from cuqi.samples import Samples
+    if m.get("op") == "history":
+        res = run_history(cuqi, m)
+        show = lambda v: [float(t) for t in v[1]] if v[0] == "stat" else ([[float(t) for t in r] for r in v[1]] if v[0] == "ci" else v[1])
+        print("roots (%s, %s, %s): %s" % (m["layout"], m["dtype"], m["rootkind"], [d["chain"] for d in res["init"]]))
+        prev = [d["chain"] for d in res["init"]]
+        for k, t in enumerate(res["trace"]):
+            print("step %d  %s -> %s %s" % (k, t["op"], t["value"][0], show(t["value"]) if t["value"][0] in ("stat", "ci", "dict", "dict2") else ""))
+            now = [d["chain"] for d in t["state"]]
+            for j in range(len(prev)):
+                if now[j] != prev[j]:
+                    print("        !! stored chain of live object %d changed: %s -> %s" % (j, prev[j], now[j]))
+            prev = now
+        print("oracle:", res["fail"] or "every stored array intact after every operation; every value is the one computed from the chain as stored at creation")
+        return 1 if res["fail"] else 0
     if m.get("op") == "burnthin":
         S = Samples(np.array(m["array"]))
         try:
